@@ -1257,6 +1257,8 @@ class Spec(object):
                 e['ret'] = (e['ret'][0], lin_add(e['ret'][1], L(s)))
             if e.get('place') is not None and not e['place']:
                 e['place'] = None       # nothing to get wrong in an empty sequence
+            if isinstance(e.get('place'), tuple):
+                e['place'] = None
             if e.get('place'):
                 # wrong placement specification: every source one element further, values from elsewhere
                 pl = []
@@ -1316,6 +1318,8 @@ class Spec(object):
             p = P(0)
             N = lin_sub(A(1), A(0))
             return [(Z, p, ('old', Z)), (p, lin_sub(E0, N), ('old', lin_scale(N, -1)))]
+        if bn == 'resize' and k in (('n',), ('n', 'val')):
+            return ('resize', lin_scale(A(0), s), ('default',) if k == ('n',) else ('val', A(1)))
         if bn == 'pop_back' and k == ():
             return [(Z, lin_sub(E0, L(s)), ('old', Z))]
         if bn == 'clear' and k == ():
@@ -1364,6 +1368,9 @@ class Spec(object):
             cd = const_of(d)
             if cd is not None:
                 return cd >= 0
+            szcells = (atom(('init', self.cell(2)))[2][0][0], atom(('init', self.cell(1)))[2][0][0])
+            if d[1] >= 0 and all(co > 0 and at in szcells for at, co in d[2]):
+                return True        # sizes and capacities are unsigned
             for (kind, u, v) in fs:
                 g = sym.canon_divx_sign(lin_sub(v, u))
                 g, _ = reduce_by(g, [sym.canon_divx_sign(q) for q in eqs])
@@ -1373,6 +1380,19 @@ class Spec(object):
                     if cr is not None and (cr >= 0 or (kind == 'lt' and cr >= -k)):
                         return True
             return False
+
+        if isinstance(segs, tuple) and segs and segs[0] == 'resize':
+            # two-sided: which side this path is on must follow from the path's own order facts
+            S0 = atom(('init', self.cell(2)))
+            E0 = lin_scale(S0, s)
+            cap0 = lin_scale(atom(('init', self.cell(1))), s)
+            if prove_le(segs[1], E0):
+                segs = [(L(0), segs[1], ('old', L(0)))]
+            elif prove_le(E0, segs[1]) or prove_le(cap0, segs[1]):
+                # (a request beyond the capacity is beyond the size: size <= capacity, C02)
+                segs = [(L(0), E0, ('old', L(0))), (E0, segs[1], segs[2])]
+            else:
+                return ('undecided', 'the path does not say whether the container grows or shrinks', None)
 
         def is_temp(t):
             return sym.is_lin(t) and any(at[0] == 'alloca' for at, co in t[2])
@@ -1388,6 +1408,8 @@ class Spec(object):
                 temps[e[2]] = e
                 continue
             b = e[3] if e[3] is not None else lin_add(e[2], L(s))
+            if same(e[2], b, eqs):
+                continue       # an empty range on this path
             writes.append({'i': i, 'what': what, 'how': e[1], 'a': e[2], 'b': b, 'sk': e[4], 'sa': e[5], 'sb': e[6],
                            'dir': e[7], 'used': False, 'single': e[3] is None})
 
